@@ -152,6 +152,10 @@ def run(tier):
                 rec = json.loads(line)
                 if rec["script"]:
                     k = rec["script"][-1]["k"]
+                    if len(rec["steps"]) == len(rec["script"]):
+                        k += " (error)" if rec["steps"][-1]["err"] else " (ok)"
+                    else:
+                        k += " (hang)"
                     kinds[k] = kinds.get(k, 0) + 1
                 if rec["outcome"] == "deadlock":
                     hangs += 1
@@ -198,7 +202,9 @@ def run(tier):
                 "real shell under explored schedules; one record per distinct observation",
         "exhaustive": True,
         "configs": t["mc"],
-        "scripts_by_last_command": kinds,
+        "records_by_last_command_and_result": kinds,
+        "tlc_actions": "Init, Next (one disjunct per command of Cmds); every command kind is exercised with every result "
+                       "class listed in records_by_last_command_and_result",
         "schedule_dependent_extra_records": sched_dependent,
         "max_scheduling_choice_points": totals["max_choice_points"],
         "scripts_with_truncated_dfs": totals["dfs_capped"],
